@@ -77,7 +77,8 @@ def main():
         if "error" in r:
             print(f"{r['name']:40s} ERROR {r['error']}")
             continue
-        ck = " ".join(f"{k}:{{1: 'CAUGHT', 2: 'inconcl', 0: 'MISSED'}.get(v['rc'], 'n/a')}" for k, v in r["checks"].items())
+        names = {1: "CAUGHT", 2: "inconcl", 0: "MISSED"}
+        ck = " ".join(f"{k}:{names.get(v['rc'], 'n/a')}" for k, v in r["checks"].items())
         print(f"{r['name']:40s} suite={r.get('suite', '-'):5s} {ck}")
         for k, v in r["checks"].items():
             if v["rc"] != 0 and v["first"]:
